@@ -22,6 +22,9 @@ VERIF = os.path.dirname(os.path.dirname(os.path.abspath(__file__)))
 REPO = os.environ.get("VERIF_REPO", "/repo")
 COQ = os.path.join(VERIF, "coq")
 BUILD = os.path.join(VERIF, "build")
+if os.path.realpath(REPO) != "/repo":
+    # a scratch copy of the repository (sanity tests): keep its binaries apart
+    BUILD = os.path.join(VERIF, "build", "alt_" + hashlib.sha1(os.path.realpath(REPO).encode()).hexdigest()[:8])
 EVID = os.path.join(VERIF, "evidence")
 REPLAYS = os.path.join(EVID, "replays")
 
@@ -100,7 +103,7 @@ def build_coq(jobs=16, timeout=3000):
     os.makedirs(BUILD, exist_ok=True)
     res = CoqBuild()
     t0 = time.time()
-    with open(os.path.join(BUILD, "coq.lock"), "w") as lk:
+    with open(os.path.join(VERIF, "build", "coq.lock"), "w") as lk:
         fcntl.flock(lk, fcntl.LOCK_EX)
         ok, out = regenerate_gen()
         if not ok:
